@@ -234,8 +234,23 @@ func unitName(base, prefix string) string {
 	return prefix + b
 }
 
+// storedMetadata is what bank genesis holds for base: the honest description, optionally with longer alias lists.
+func storedMetadata(base string, moreAliases bool) banktypes.Metadata {
+	md := plainMetadata(base)
+	if moreAliases {
+		md.DenomUnits[1].Aliases = append(md.DenomUnits[1].Aliases, unitName(base, "milli-"))
+		md.DenomUnits[2].Aliases = []string{unitName(base, "whole")}
+	}
+	return md
+}
+
 // genMetadata builds coin metadata for base (valid by construction) and then twists it.
 func genMetadata(rng *rand.Rand, base string, registered []string) (banktypes.Metadata, string) {
+	md := plainMetadata(base)
+	return twistMetadata(rng, md, base, registered)
+}
+
+func plainMetadata(base string) banktypes.Metadata {
 	md := banktypes.Metadata{
 		Description: "coin " + base, Base: base, Display: unitName(base, "disp"),
 		Name: strings.ToUpper(unitName(base, "")) + " coin", Symbol: strings.ToUpper(unitName(base, "")),
@@ -249,6 +264,10 @@ func genMetadata(rng *rand.Rand, base string, registered []string) (banktypes.Me
 		md.Name = "atom via channel-0"
 		md.Symbol = "ibcATOM"
 	}
+	return md
+}
+
+func twistMetadata(rng *rand.Rand, md banktypes.Metadata, base string, registered []string) (banktypes.Metadata, string) {
 	tw := "plain"
 	switch rng.Intn(22) {
 	case 0:
@@ -309,6 +328,13 @@ func genMetadata(rng *rand.Rand, base string, registered []string) (banktypes.Me
 	case 16:
 		md.DenomUnits[1] = nil
 		tw = "nil-unit"
+	case 17:
+		md.DenomUnits[1].Aliases = append(md.DenomUnits[1].Aliases, unitName(base, "milli-"), unitName(base, "milli--"))
+		md.DenomUnits[2].Aliases = []string{unitName(base, "whole"), unitName(base, "entire")}
+		tw = "aliases-longer"
+	case 18:
+		md.DenomUnits[1].Aliases = nil
+		tw = "aliases-none"
 	}
 	return md, tw
 }
